@@ -40,6 +40,8 @@ type ReplayReq struct {
 	// Alt: a second script for the same candidate, tried when the first does not reproduce (e.g. the same
 	// message with its lists lengthened so that a buffer really has to grow)
 	Alt *ReplayReq `json:"alt,omitempty"`
+	// Dirty: reproduced with buffers whose spare capacity holds non-zero bytes (VFRUN_DIRTY=1)
+	Dirty bool `json:"dirty_spare,omitempty"`
 }
 
 type RunResult struct {
@@ -278,6 +280,9 @@ func runRunner(bin string, steps []map[string]any, timeout time.Duration, memLim
 	}
 	cmd := exec.Command("bash", "-c", sh)
 	cmd.Env = append(os.Environ(), "GORACE=exitcode=0 halt_on_error=0")
+	if runnerDirty {
+		cmd.Env = append(cmd.Env, "VFRUN_DIRTY=1")
+	}
 	raceSeen = false
 	cmd.Stdin = bytes.NewReader(req)
 	var out, errb bytes.Buffer
@@ -705,6 +710,20 @@ func confirmViolations(d *Driver, viols []Violation) {
 				v.Replay = alt
 			}
 		}
+		if !ok && v.Replay.Judge.Note != "race" && dirtyRelevant(v) {
+			// the model lets the spare capacity of a bytes.Buffer hold arbitrary bytes (a recycled buffer); a fresh
+			// buffer's spare capacity is zero: replay once more with buffers whose spare capacity holds garbage
+			runnerDirty = true
+			for rq := v.Replay; !ok && rq != nil; rq = rq.Alt {
+				res, rerr := runRunner(useBin, rq.Steps, 120*time.Second, 8<<20)
+				if ok2, obs2 := judge(rq.Judge, res, rerr); ok2 {
+					ok, obs = ok2, map[string]any{"buffers_with_dirty_spare_capacity": true, "observed": obs2}
+					v.Replay = rq
+					v.Replay.Dirty = true
+				}
+			}
+			runnerDirty = false
+		}
 		v.Observed = obs
 		if ok {
 			v.Confirmed = "native"
@@ -718,7 +737,7 @@ func confirmViolations(d *Driver, viols []Violation) {
 		path := filepath.Join(dir, name)
 		v.ReplayFile = path
 		doc := map[string]any{"property": v.Property, "item": v.Item, "obligation": v.Obligation, "detail": v.Detail,
-			"model": v.Model, "steps": v.Replay.Steps, "judge": v.Replay.Judge, "observed": obs, "confirmed": v.Confirmed,
+			"model": v.Model, "steps": v.Replay.Steps, "judge": v.Replay.Judge, "dirty_spare": v.Replay.Dirty, "observed": obs, "confirmed": v.Confirmed,
 			"solver": map[string]any{"name": "z3", "version": "5.1.0"}, "reproduce": "./check replay " + path}
 		raw, _ := json.MarshalIndent(doc, "", " ")
 		os.WriteFile(path, raw, 0o644)
@@ -735,6 +754,7 @@ func replayFile(path string) int {
 		Property string           `json:"property"`
 		Steps    []map[string]any `json:"steps"`
 		Judge    Judge            `json:"judge"`
+		Dirty    bool             `json:"dirty_spare"`
 	}
 	if err := json.Unmarshal(raw, &doc); err != nil {
 		fmt.Println(err)
@@ -756,6 +776,7 @@ func replayFile(path string) int {
 			bin = rb
 		}
 	}
+	runnerDirty = doc.Dirty
 	res, rerr := runRunner(bin, doc.Steps, 120*time.Second, 8<<20)
 	ok, obs := judge(doc.Judge, res, rerr)
 	if doc.Judge.Note == "race" && raceSeen {
@@ -876,3 +897,9 @@ func inflateText(v any, n int) any {
 	}
 	return v
 }
+
+
+var runnerDirty bool
+
+// dirtyRelevant: every candidate may depend on the bytes behind a buffer's content (the model keeps them unknown)
+func dirtyRelevant(v *Violation) bool { return true }
